@@ -151,6 +151,7 @@ CHECKS["C10"] = {
         J("scanners", "c10", "TestScanners", 300, 5000, 8),
         J("duplicatepair", "c10", "TestDuplicatePair", 200, 3000, 2),
         J("runnerorder", "c10", "TestRunnerOrderOutcome", 200, 3000, 2),
+        J("known", "c10", "TestKnownDecoratorOutcomeDependsOnEnumerationOrder", None, None),
     ],
     "assumptions": [
         "registration order and the registries' enumeration order are drawn explicitly (verif hook); Go map order inside the container and the goroutine schedule of the scan phase vary freely between the repeated runs and are thereby sampled, not controlled",
